@@ -23,6 +23,10 @@ pub enum Mode {
     Directed,
     Seeded,
     Oom,
+    /// C06 only: one trace per subset of the 22 builder slots (idx → mask is a
+    /// bijection on 0..2^22, so the thorough tier covers every subset once and
+    /// the quick tier a well-spread sample)
+    Subsets,
 }
 
 impl Mode {
@@ -31,6 +35,7 @@ impl Mode {
             Mode::Directed => "directed",
             Mode::Seeded => "seeded",
             Mode::Oom => "oom",
+            Mode::Subsets => "subsets",
         }
     }
     fn from_name(s: &str) -> Option<Self> {
@@ -38,6 +43,7 @@ impl Mode {
             "directed" => Some(Mode::Directed),
             "seeded" => Some(Mode::Seeded),
             "oom" => Some(Mode::Oom),
+            "subsets" => Some(Mode::Subsets),
             _ => None,
         }
     }
@@ -54,6 +60,7 @@ pub fn trace_for(prop: Prop, base: u64, mode: Mode, idx: u64, k: u32) -> Option<
             t.cfg.fail_at = k;
             Some(t)
         }
+        Mode::Subsets => gen::subset_trace(prop, idx),
     }
 }
 
@@ -247,6 +254,7 @@ pub struct WorkerArgs {
     pub directed: (u64, u64),
     pub seeded: (u64, u64),
     pub oom: (u64, u64),
+    pub subsets: (u64, u64),
     pub det_sample: u64,
     pub out: String,
 }
@@ -287,12 +295,16 @@ fn run_chunk(a: &WorkerArgs, mode: Mode, from: u64, to: u64, agg: &mut Agg) {
     let out = proc::fork_run(|fd| {
         let mut buf = String::new();
         for idx in from..to {
-            let t = match &directed {
-                Some(d) => match d.get(idx as usize) {
+            let t = match (&directed, mode) {
+                (Some(d), _) => match d.get(idx as usize) {
                     Some(t) => t.clone(),
                     None => continue,
                 },
-                None => gen::gen_trace(prop, mix(base, idx)),
+                (None, Mode::Subsets) => match gen::subset_trace(prop, idx) {
+                    Some(t) => t,
+                    None => continue,
+                },
+                (None, _) => gen::gen_trace(prop, mix(base, idx)),
             };
             let r = eval::evaluate(prop, &t);
             buf.push_str(&format!("I\t{idx}\n"));
@@ -338,7 +350,7 @@ fn run_chunk(a: &WorkerArgs, mode: Mode, from: u64, to: u64, agg: &mut Agg) {
 
 pub fn cmd_worker(a: WorkerArgs) -> i32 {
     let mut agg = Agg::default();
-    for (mode, (from, to)) in [(Mode::Directed, a.directed), (Mode::Seeded, a.seeded), (Mode::Oom, a.oom)] {
+    for (mode, (from, to)) in [(Mode::Directed, a.directed), (Mode::Subsets, a.subsets), (Mode::Seeded, a.seeded), (Mode::Oom, a.oom)] {
         let mut lo = from;
         while lo < to {
             let hi = (lo + CHUNK).min(to);
@@ -511,14 +523,14 @@ pub struct CheckArgs {
 fn budgets(prop: Prop, thorough: bool, scale: f64) -> (u64, u64, u64) {
     // (seeded evaluations, OOM traces, determinism sample)
     let (n, oom) = match (prop, thorough) {
-        (Prop::C16, false) => (160_000, 160),
-        (Prop::C06, false) => (60_000, 120),
-        (Prop::C07, false) => (100_000, 120),
-        (Prop::C12, false) => (100_000, 160),
-        (Prop::C16, true) => (6_000_000, 3000),
-        (Prop::C06, true) => (2_000_000, 2000),
-        (Prop::C07, true) => (3_000_000, 2000),
-        (Prop::C12, true) => (4_000_000, 3000),
+        (Prop::C16, false) => (500_000, 300),
+        (Prop::C06, false) => (200_000, 250),
+        (Prop::C07, false) => (250_000, 250),
+        (Prop::C12, false) => (400_000, 400),
+        (Prop::C16, true) => (20_000_000, 6000),
+        (Prop::C06, true) => (8_000_000, 5000),
+        (Prop::C07, true) => (8_000_000, 5000),
+        (Prop::C12, true) => (16_000_000, 8000),
     };
     let det = if thorough { 2000 } else { 256 };
     (((n as f64) * scale) as u64, ((oom as f64) * scale).max(1.0) as u64, det)
@@ -528,7 +540,7 @@ fn split(total: u64, w: u64, i: u64) -> (u64, u64) {
     (total * i / w, total * (i + 1) / w)
 }
 
-fn spawn_workers(a: &CheckArgs, directed_n: u64, seeded_n: u64, oom_n: u64, det: u64, workers: u64, tag: &str) -> Result<Agg, String> {
+fn spawn_workers(a: &CheckArgs, directed_n: u64, subsets_n: u64, seeded_n: u64, oom_n: u64, det: u64, workers: u64, tag: &str) -> Result<Agg, String> {
     let exe = std::env::current_exe().map_err(|e| e.to_string())?;
     let scratch = format!("{}/sim/target/scratch-{}-{}-{}", a.verif_dir, a.prop.id(), std::process::id(), tag);
     std::fs::create_dir_all(&scratch).map_err(|e| format!("{scratch}: {e}"))?;
@@ -537,6 +549,7 @@ fn spawn_workers(a: &CheckArgs, directed_n: u64, seeded_n: u64, oom_n: u64, det:
         let (d0, d1) = split(directed_n, workers, i);
         let (s0, s1) = split(seeded_n, workers, i);
         let (o0, o1) = split(oom_n, workers, i);
+        let (u0, u1) = split(subsets_n, workers, i);
         let out = format!("{scratch}/w{i}.out");
         let child = std::process::Command::new(&exe)
             .arg("worker")
@@ -545,6 +558,7 @@ fn spawn_workers(a: &CheckArgs, directed_n: u64, seeded_n: u64, oom_n: u64, det:
             .arg(format!("{d0}:{d1}"))
             .arg(format!("{s0}:{s1}"))
             .arg(format!("{o0}:{o1}"))
+            .arg(format!("{u0}:{u1}"))
             .arg(det.to_string())
             .arg(&out)
             .spawn()
@@ -612,7 +626,12 @@ pub fn cmd_check(a: CheckArgs) -> i32 {
     println!("allocsim check property={} tier={} VERIF_SEED={} workers={} profile={}", prop.id(), tier, a.base, a.workers, a.profile_tag);
     let (seeded_n, oom_n, det) = budgets(prop, a.thorough, a.scale);
     let directed_n = gen::directed(prop).len() as u64;
-    let mut agg = match spawn_workers(&a, directed_n, seeded_n, oom_n, det, a.workers, "main") {
+    let subsets_n: u64 = match (prop, a.thorough) {
+        (Prop::C06, true) => 1 << 22,
+        (Prop::C06, false) => ((65536.0 * a.scale) as u64).min(1 << 22),
+        _ => 0,
+    };
+    let mut agg = match spawn_workers(&a, directed_n, subsets_n, seeded_n, oom_n, det, a.workers, "main") {
         Ok(g) => g,
         Err(e) => {
             println!("HARNESS-ERROR: {e}");
@@ -627,7 +646,7 @@ pub fn cmd_check(a: CheckArgs) -> i32 {
         if w == a.workers {
             continue;
         }
-        match spawn_workers(&a, 0, det, 0, det, w, &format!("det{w}")) {
+        match spawn_workers(&a, 0, 0, det, 0, det, w, &format!("det{w}")) {
             Ok(g) => det_runs.push((w, g.det)),
             Err(e) => {
                 println!("HARNESS-ERROR: determinism re-run failed: {e}");
@@ -763,6 +782,13 @@ pub fn cmd_check(a: CheckArgs) -> i32 {
         ("executions", J::u(agg.executions)),
         ("directed_corpus_traces", J::u(directed_n)),
         ("seeded_evaluations", J::u(seeded_n)),
+        ("builder_slot_subsets_enumerated", J::u(subsets_n)),
+        ("builder_slot_subsets_note", J::s(match (prop, a.thorough) {
+            (Prop::C06, true) => "all 2^22 subsets of the 22 builder slots, each once, in declaration order with marker contents (supplement to the seeded search; orders, repeats and contents are sampled)",
+            (Prop::C06, false) => "a spread sample of the 2^22 slot subsets (idx·odd constant mod 2^22); the thorough tier enumerates all of them",
+            (Prop::C12, _) => "all 2^10 subsets × 2 architectures are part of the directed corpus",
+            _ => "not applicable to this property",
+        })),
         ("allocation_failure_traces", J::u(agg.oom_traces)),
         ("allocation_failure_points_enumerated", J::u(agg.oom_points)),
         ("simulated_runs_per_hour", per_hour(agg.executions)),
@@ -784,6 +810,7 @@ pub fn cmd_check(a: CheckArgs) -> i32 {
             ("real", J::Arr(vec![J::s("multiboot2-common (working tree of /repo, default features)"), J::s("multiboot2 (working tree)"), J::s("multiboot2-header (working tree)"), J::s("alloc::boxed::Box / alloc::vec::Vec of the Rust standard library")])),
             ("stub", J::Arr(vec![J::s("the global allocator (SimAlloc: placement, fill, reuse, realloc-move, failure, red zones, guard pages)")])),
         ])),
+        ("second_engine_miri", J::s(std::env::var("VERIF_MIRI_SUMMARY").unwrap_or_else(|_| "not run".into()))),
         ("build_profile", J::s(a.profile_tag.clone())),
         ("repo_rev", J::s(rev.clone())),
         ("violations", J::Arr(vjson)),
